@@ -1,4 +1,6 @@
 import CwMt.Proofs.Engine
+import CwMt.Proofs.EngineTx
+import CwMt.Proofs.TxSites
 /-
   C01 — Top-level transactions are atomic: all-or-nothing, in order.
   Model: CwMt/Model/Engine.lean (`App.executeMulti`, `App.execute`, `App.sudo`, `App.wasmSudo`,
@@ -74,5 +76,51 @@ theorem fuel_irrelevant (cfg : Config E) (blk : Block) (fuel k : Nat) (ch : Chai
     (h : execute cfg blk fuel ch sender m tr = (r, tr')) (hr : r ≠ .outOfFuel) :
     execute cfg blk (fuel + k) ch sender m tr = (r, tr') :=
   Engine.fuel_mono_execute cfg blk fuel k ch sender m tr r tr' h hr
+
+/-! ### the same entry points as the Rust code runs them: writing as they go, returning early on `Err`
+
+`CwMt/Model/EngineTx.lean` is the engine with in-place writes: a failing step leaves whatever it (or
+anything before it) had already written in the storage it was handed, and only `transactional` — at
+the entry point, around every sub-message and around every contract call — ever drops writes. `Dirt`
+(what failing contracts and modules leave behind) is arbitrary. -/
+
+/-- `App::execute_multi` run imperatively gives exactly the outcome, the trace **and the persisted
+state** of the value-semantics engine, whatever was written before the failure. -/
+theorem imperative_execute_multi (cfg : Config E) (d : Dirt E) (blk : Block) (fuel : Nat) (ch : Chain E)
+    (sender : Addr) (msgs : List Msg) :
+    AppI.executeMulti cfg d blk fuel ch sender msgs = App.executeMulti cfg blk fuel ch sender msgs :=
+  EngineTx.executeMulti_eq cfg d blk fuel ch sender msgs
+
+theorem imperative_sudo (cfg : Config E) (d : Dirt E) (blk : Block) (fuel : Nat) (ch : Chain E) (m : SudoMsg) :
+    AppI.sudo cfg d blk fuel ch m = App.sudo cfg blk fuel ch m :=
+  EngineTx.sudo_eq cfg d blk fuel ch m
+
+theorem imperative_wasm_sudo (cfg : Config E) (d : Dirt E) (blk : Block) (fuel : Nat) (ch : Chain E)
+    (c : Addr) (m : Val) :
+    AppI.wasmSudo cfg d blk fuel ch c m = App.wasmSudo cfg blk fuel ch c m :=
+  EngineTx.wasmSudo_eq cfg d blk fuel ch c m
+
+/-- All-or-nothing for the imperative engine: a failed `execute_multi` persists nothing, although the
+loop inside it did write (see `dirt_is_real`). -/
+theorem imperative_atomic (cfg : Config E) (d : Dirt E) (blk : Block) (fuel : Nat) (ch : Chain E)
+    (sender : Addr) (msgs : List Msg) (r : Outcome (List AppResponse)) (ch' : Chain E) (tr : Trace)
+    (h : AppI.executeMulti cfg d blk fuel ch sender msgs = (r, ch', tr)) (hr : r.isOk = false) : ch' = ch :=
+  EngineTx.imperative_atomic cfg d blk fuel ch sender msgs r ch' tr h hr
+
+/-- The message loop without its enclosing `transactional` is *not* atomic: a message list whose second
+message fails returns `err` with the first message's transfer still in the storage. (Non-vacuity of the
+theorems above: the dirt they discard exists.) -/
+theorem dirt_is_real :
+    ∃ (cfg : Config Unit) (d : Dirt Unit) (blk : Block) (fuel : Nat) (ch : Chain Unit) (sender : Addr)
+      (msgs : List Msg) (ch' : Chain Unit) (tr : Trace),
+      AppI.runMsgsI cfg d blk fuel ch sender msgs [] = (.err, ch', tr) ∧ ch'.bank ≠ ch.bank :=
+  EngineTx.dirt_is_real
+
+/-- Tie to the sources (regenerated on every run by checklib/tr_tx.py): non-test code of app.rs / wasm.rs
+creates write caches at exactly the places where `CwMt/Model/EngineTx.lean` has `transactionalI` — the three
+entry points, once around every sub-message (with both `reply` calls outside, on the dispatcher's storage)
+and once around every contract call (the querier reading the storage beneath). -/
+theorem tx_sites_as_modelled : Gen.Tx.sites = expectedTxSites :=
+  TxSites.sites_as_modelled
 
 end CwMt.C01
